@@ -1,5 +1,6 @@
 import RlModel.Gen.PlanRules
 import RlModel.Lemmas.PlanSem
+import RlModel.Lemmas.PlanGroups
 /-!
 # C01 — subquery (decorrelation) rules
 
@@ -306,5 +307,188 @@ theorem dagg_extends (aggs : List Agg) (R : DRel) : (dagg aggs R).Extends := by
 
 example : aRfive.Extends ∧ (lift aL1).Extends ∧ ApplyType .semi :=
   ⟨aRfive_extends, lift_extends aL1, Or.inr (Or.inr (Or.inl rfl))⟩
+
+-- the aggregate decorrelation rules under the conditions their FIXMEs name ---------------------------
+
+/-- The rows `apply left_outer` produces for one outer row. -/
+def loBlock (R : DRel) (l : Env) : List Env :=
+  match R.rows l with
+  | [] => [merge R.owned l nullEnv]
+  | ms => ms
+
+theorem loBlock_ne_nil (R : DRel) (l : Env) : loBlock R l ≠ [] := by
+  unfold loBlock; split <;> simp_all
+
+/-- On every row produced for the outer row `l`, an expression of the left side has its value on `l`. -/
+theorem loBlock_left_value {α} (e : Env → α) (L : Rel) (R : DRel) (hx : R.Extends)
+    (hd : ∀ x, L.owned x = true → R.owned x = false) (he : ReadsWithin e L.owned)
+    (l m : Env) (hm : m ∈ loBlock R l) : e m = e l := by
+  apply he
+  intro x hxl
+  have hxr := hd x hxl
+  unfold loBlock at hm
+  split at hm
+  · simp only [List.mem_singleton] at hm
+    subst hm
+    simp [merge, hxr]
+  · exact hx l m hm x hxr
+
+theorem groupKey_congr (ks : List VExpr) (a b : Env) (h : ∀ e ∈ ks, e a = e b) :
+    groupKey ks a = groupKey ks b := by
+  unfold groupKey
+  exact List.map_congr_left h
+
+theorem flatMap_single_eq_map {α β} (xs : List α) (g : α → β) : xs.flatMap (fun x => [g x]) = xs.map g := by
+  induction xs with
+  | nil => rfl
+  | cons x xs ih => simp [List.flatMap_cons, ih]
+
+/-- Output schema of the aggregate decorrelation rules: the left schema and the aggregates' columns. -/
+def outCols (L : Rel) (aggs : List Agg) : List VExpr := L.cols ++ aggs.map fun a => fun (ρ : Env) => ρ a.col
+
+/-- **`pushdown-apply-scalar-agg` is sound under exactly the two conditions of its FIXME**: the
+left rows are pairwise different on the left schema ("the left table has a key") and every
+aggregate gives the same value on no row and on the NULL-padded row ("agg({}) = agg({null})"). -/
+theorem psound_pushdown_apply_scalar_agg_partial (L : Rel) (aggs : List Agg) (R : DRel)
+    (hx : R.Extends)
+    (hd : ∀ x, L.owned x = true → (dagg aggs R).owned x = false)
+    (hcols : ∀ e ∈ L.cols, ReadsWithin e L.owned)
+    (hkey : L.rows.Pairwise fun a b => groupKey L.cols a ≠ groupKey L.cols b)
+    (hagg : ∀ a ∈ aggs, ∀ l, a.fn [] = a.fn [merge R.owned l nullEnv]) :
+    RelPerm (apply .inner L (dagg aggs R)) (hashagg L.cols aggs (apply .leftOuter L R)) := by
+  have hdR : ∀ x, L.owned x = true → R.owned x = false := by
+    intro x h; have := hd x h; simp only [dagg, Bool.or_eq_false_iff] at this; exact this.1
+  have hdA : ∀ x, L.owned x = true → (aggs.any fun a => a.col == x) = false := by
+    intro x h; have := hd x h; simp only [dagg, Bool.or_eq_false_iff] at this; exact this.2
+  -- the right-hand side's input, block by block
+  have hrows : (apply .leftOuter L R).rows = L.rows.flatMap (loBlock R) := rfl
+  have hkeyb : ∀ l m, m ∈ loBlock R l → groupKey L.cols m = groupKey L.cols l := by
+    intro l m hm
+    exact groupKey_congr L.cols m l (fun e he => loBlock_left_value e L R hx hdR (hcols e he) l m hm)
+  have hgroups : groups L.cols (L.rows.flatMap (loBlock R))
+      = L.rows.reverse.map fun l => (groupKey L.cols l, loBlock R l) := by
+    rw [groups_flatMap_blocks]
+    · rw [← flatMap_single_eq_map]
+      apply flatMap_congr'
+      intro l _
+      cases hb : loBlock R l with
+      | nil => exact absurd hb (loBlock_ne_nil R l)
+      | cons m ms =>
+        apply groups_const_key
+        intro y hy
+        exact hkeyb l y (by rw [hb]; exact hy)
+    · apply List.Pairwise.imp _ hkey
+      intro a b hab x hxa y hyb
+      rw [hkeyb a x hxa, hkeyb b y hyb]
+      exact hab
+  -- both sides, as lists of output rows over L.rows (one in reverse order)
+  unfold RelPerm
+  have hcolsEq : (apply .inner L (dagg aggs R)).cols = (hashagg L.cols aggs (apply .leftOuter L R)).cols := by
+    simp [apply, dagg, hashagg]
+  have hl : (apply .inner L (dagg aggs R)).out
+      = L.rows.map fun l => (outCols L aggs).map fun e => e (aggRowD l aggs (R.rows l)) := by
+    simp [Rel.out, apply, dagg, outCols, flatMap_single_eq_map]
+  have hr : (hashagg L.cols aggs (apply .leftOuter L R)).out
+      = L.rows.reverse.map fun l => (outCols L aggs).map fun e => e (aggRow aggs (loBlock R l)) := by
+    simp only [Rel.out, hashagg, hrows, hgroups, List.map_map, outCols]
+    rfl
+  rw [hl, hr]
+  have hrow : ∀ l, ((outCols L aggs).map fun e => e (aggRowD l aggs (R.rows l)))
+      = ((outCols L aggs).map fun e => e (aggRow aggs (loBlock R l))) := by
+    intro l
+    apply List.map_congr_left
+    intro e he
+    unfold outCols at he
+    rcases List.mem_append.mp he with he | he
+    · -- a column of the left side: both rows carry l's values on L.owned
+      apply hcols e he
+      intro x hxl
+      have hxa := hdA x hxl
+      have hnone : aggs.find? (fun a => a.col == x) = none := by
+        apply List.find?_eq_none.mpr
+        intro a ha
+        have := List.any_eq_false.mp hxa a ha
+        simpa using this
+      cases hb : loBlock R l with
+      | nil => exact absurd hb (loBlock_ne_nil R l)
+      | cons m ms =>
+        rw [aggRow_outside aggs m ms x hxa]
+        unfold aggRowD
+        rw [hnone]
+        have hm : m ∈ loBlock R l := by rw [hb]; simp
+        have := loBlock_left_value (fun ρ => ρ x) L R hx hdR
+          (by intro ρ ρ' h; exact h x hxl) l m hm
+        exact this.symm
+    · -- an aggregate's column
+      obtain ⟨a, ha, rfl⟩ := List.mem_map.mp he
+      simp only [aggRowD, aggRow]
+      cases hf : aggs.find? (fun a' => a'.col == a.col) with
+      | none =>
+        have := List.find?_eq_none.mp hf a ha
+        simp at this
+      | some a' =>
+        have ha' := List.mem_of_find?_eq_some hf
+        simp only
+        unfold loBlock
+        cases hrl : R.rows l with
+        | nil => simpa using hagg a' ha' l
+        | cons m ms => rfl
+  have : (L.rows.map fun l => (outCols L aggs).map fun e => e (aggRowD l aggs (R.rows l)))
+      = L.rows.map fun l => (outCols L aggs).map fun e => e (aggRow aggs (loBlock R l)) :=
+    List.map_congr_left (fun l _ => hrow l)
+  rw [this]
+  exact (List.reverse_perm _).symm.map _
+
+/-- `count(column 1)`: satisfies agg({}) = agg({NULL-padded row}) for a sub-plan owning column 1. -/
+def aCountCol : Agg := { col := 2, fn := fun ms => .n (ms.filter fun m => m 1 != .null).length }
+
+example : (aL1.rows.Pairwise fun a b => groupKey aL1.cols a ≠ groupKey aL1.cols b) ∧
+    (∀ a ∈ [aCountCol], ∀ l, a.fn [] = a.fn [merge aRnone.owned l nullEnv]) := by
+  refine ⟨by simp [aL1], ?_⟩
+  intro a ha l
+  simp only [List.mem_singleton] at ha
+  subst ha
+  simp [aCountCol, merge, aRnone, nullEnv]
+
+/-- **`pushdown-apply-group-agg` is sound under the condition of its FIXME**: the left rows are
+pairwise different on the left schema ("the left table has a key").  (The other condition the
+FIXME lists is not needed here: a grouped aggregate has no row for an empty input on either side.) -/
+theorem psound_pushdown_apply_group_agg_partial (L : Rel) (ks : List VExpr) (aggs : List Agg) (R : DRel)
+    (hx : R.Extends)
+    (hd : ∀ x, L.owned x = true → R.owned x = false)
+    (hcols : ∀ e ∈ L.cols, ReadsWithin e L.owned)
+    (hkey : L.rows.Pairwise fun a b => groupKey L.cols a ≠ groupKey L.cols b) :
+    RelPerm (apply .inner L (dhashagg ks aggs R)) (hashagg (L.cols ++ ks) aggs (apply .inner L R)) := by
+  have hkeyb : ∀ l m, m ∈ R.rows l → groupKey L.cols m = groupKey L.cols l := by
+    intro l m hm
+    apply groupKey_congr
+    intro e he
+    apply hcols e he
+    intro x hxl
+    exact hx l m hm x (hd x hxl)
+  have hgroups : groups (L.cols ++ ks) (L.rows.flatMap R.rows)
+      = L.rows.reverse.flatMap fun l => (groups ks (R.rows l)).map fun g => (groupKey L.cols l ++ g.1, g.2) := by
+    rw [groups_flatMap_blocks]
+    · apply flatMap_congr'
+      intro l _
+      exact groups_prefix L.cols ks (groupKey L.cols l) (R.rows l) (hkeyb l)
+    · apply List.Pairwise.imp _ hkey
+      intro a b hab x hxa y hyb e
+      rw [groupKey_append, groupKey_append, hkeyb a x hxa, hkeyb b y hyb] at e
+      have hlen : (groupKey L.cols a).length = (groupKey L.cols b).length := by simp [groupKey]
+      exact hab (List.append_inj_left e hlen)
+  unfold RelPerm
+  have hl : (apply .inner L (dhashagg ks aggs R)).out
+      = (L.rows.flatMap fun l => (groups ks (R.rows l)).map fun g => aggRow aggs g.2).map
+          fun ρ => (L.cols ++ (ks ++ aggs.map fun a => fun (ρ : Env) => ρ a.col)).map fun e => e ρ := by
+    simp [Rel.out, apply, dhashagg]
+  have hr : (hashagg (L.cols ++ ks) aggs (apply .inner L R)).out
+      = (L.rows.reverse.flatMap fun l => (groups ks (R.rows l)).map fun g => aggRow aggs g.2).map
+          fun ρ => (L.cols ++ (ks ++ aggs.map fun a => fun (ρ : Env) => ρ a.col)).map fun e => e ρ := by
+    have hrows : (apply .inner L R).rows = L.rows.flatMap R.rows := rfl
+    simp only [Rel.out, hashagg, hrows, hgroups, List.map_flatMap, List.map_map, List.append_assoc]
+    rfl
+  rw [hl, hr]
+  exact ((List.reverse_perm L.rows).symm.flatMap_right _).map _
 
 end RlModel.C01
